@@ -116,16 +116,22 @@ def run(ctx):
         p, segs = mk_path(it)
         p.attrs['_start'] = None
         p.attrs['_end'] = None
+        st_, en_ = it.getattr(p, 'start'), it.getattr(p, 'end')
+        # the point queries are answered by the segments themselves: cached end points that differ from the segments' (a segment was
+        # edited in place) must not show through
+        p.attrs['_start'] = Rat.csym('STALE0')
+        p.attrs['_end'] = Rat.csym('STALE1')
         return (it.call_method(p, 'point', 0), it.call_method(p, 'point', 1), it.call_method(p, 'T2t', 0), it.call_method(p, 'T2t', 1),
-                it.getattr(p, 'start'), it.getattr(p, 'end'), segs)
+                st_, en_, segs)
 
     def judge_short(v):
         p0, p1, t0, t1, st, en, segs = v
         probs = []
-        if not (p0[1] is segs[0] and to_rat(p0[2]).equals(0)):
-            probs.append('point(0) is not segments[0].point(0)')
-        if not (p1[1] is segs[-1] and to_rat(p1[2]).equals(1)):
-            probs.append('point(1) is not segments[-1].point(1)')
+        is_hook = lambda x: isinstance(x, tuple) and len(x) == 3 and x[0] == 'pt'
+        if not (is_hook(p0) and p0[1] is segs[0] and to_rat(p0[2]).equals(0)):
+            probs.append('point(0) is not segments[0].point(0)%s' % ('' if is_hook(p0) else ' (it returns %s)' % short(p0, 30)))
+        if not (is_hook(p1) and p1[1] is segs[-1] and to_rat(p1[2]).equals(1)):
+            probs.append('point(1) is not segments[-1].point(1)%s' % ('' if is_hook(p1) else ' (it returns %s)' % short(p1, 30)))
         if tuple(t0) != (0, 0):
             probs.append('T2t(0) = %r' % (t0,))
         if tuple(t1) != (N - 1, 1):
